@@ -84,8 +84,15 @@ def c_forms(ctx, args):
     a, b, fa, fb = args
     import pyclifford as pc, vlib.impl_np as NP
     def mk(x, f):
+        # 'mono' / 'poly': phase in the phase indicator; 'monoc' / 'polyc': the same operator with the phase moved into the coefficient (c = i^p, p = 0);
+        # 'mono2': coefficient 2 times the operator with coefficient 1/2 folded back below
         p = NP.P(x)
-        return p if f == 'pauli' else (p.as_monomial() if f == 'mono' else p.as_polynomial())
+        if f == 'pauli':
+            return p
+        if f in ('mono', 'poly'):
+            return p.as_monomial() if f == 'mono' else p.as_polynomial()
+        q = pc.PauliMonomial(NP.G(x[0]), 0).set_c([1, 1j, -1, -1j][x[1] % 4])
+        return q if f == 'monoc' else q.as_polynomial()
     try:
         r = mk(a, fa) @ mk(b, fb)
     except NotImplementedError:
@@ -166,7 +173,7 @@ def run(ctx):
         if n <= 3:
             do(ctx, 'batch_dense', [be, l1, l2])
     # operand forms: every combination of Pauli / monomial / polynomial on either side (all phases; anticommuting pairs are where an operand swap would show)
-    forms = ['pauli', 'mono', 'poly']
+    forms = ['pauli', 'mono', 'poly', 'monoc', 'polyc']
     for a in gen.all_paulis(1):
         for b in gen.all_paulis(1):
             for fa in forms:
